@@ -7,6 +7,7 @@ import Klev.Proofs.TimeOK
 import Klev.Proofs.ExtRun
 import Klev.Proofs.ExtReads
 import Klev.Proofs.ExtInv
+import Klev.Proofs.Witness
 namespace Klev.C10
 
 /-- **Refinement.** On every log state satisfying the invariant whose live message times
@@ -195,6 +196,71 @@ theorem search_tie_time (items : List Item) (ts : Int) :
   Klev.indexTime_tie items ts
 
 end Klev.C10
+
+/-! ### Non-vacuity
+
+The theorems at the witness log `Witness.wL` (time index on; live times 10 20 | 20 30 | 30 40 | 50
+over four segments — the tie at 20 and the tie at 30 both straddle a segment boundary; offsets 3
+and 7 deleted), its derived index `Witness.wIdx`, the history `Witness.ops` from the empty log
+`Witness.l0`, and the extended history `Witness.xs` (`Klev/Proofs/Witness.lean`). `TimesInv`,
+`Monotone`, `FirstAtBase` and the time carry of `wL` were obtained from the reachability
+theorems of this file. -/
+section NonVacuity
+open Klev Klev.Witness
+
+example := Klev.C10.getByTime_ok wL wL_inv wL_timesInv wL_mono wL_fab 20
+example := Klev.C10.getByTime_ok wL wL_inv wL_timesInv wL_mono wL_fab 51
+example := Klev.C10.derive_times ⟨true, true⟩ .v2 (abs wL).live rfl wL_mono.1 wL_mono.2
+example := Klev.C10.index_time_spec wIdx 25 wIdx_sortedTs
+example := Klev.C10.getByTime_keeps wL wL_inv wL_timesInv wL_mono wL_fab 30
+example : FirstAtBase wL := Klev.C10.firstAtBase_run l0 l0_inv (firstAtBase_open_empty oo l0 open_l0) ops
+example := Klev.C10.firstAtBase_run wL wL_inv wL_fab [.delete [5], .delete [0, 1], .publish [(0, [], [])]]
+-- one more step from `wL`: the carry (high-water mark 50) gives the publish hypothesis
+example := Klev.C10.timeCarry_step wL wL_inv wL_timesOn wL_timesInv wL_mono 50 wL_carry
+  (.publish [(50, [1], [1]), (55, [], [])]) trivial (by simp [PubMonoOp])
+example := Klev.C10.monotone_step wL wL_inv wL_mono (.publish [(50, [1], [1]), (55, [], [])])
+  (Klev.timeCarry_step wL wL_inv wL_timesOn wL_timesInv wL_mono 50 wL_carry
+    (.publish [(50, [1], [1]), (55, [], [])]) trivial (by simp [PubMonoOp])).1
+example := Klev.C10.monotone_step wL wL_inv wL_mono (.delete [4]) trivial
+example := Klev.C10.timesInv_step wL wL_inv wL_timesOn wL_timesInv wL_mono
+  (.publish [(50, [1], [1]), (55, [], [])]) trivial
+  (Klev.timeCarry_step wL wL_inv wL_timesOn wL_timesInv wL_mono 50 wL_carry
+    (.publish [(50, [1], [1]), (55, [], [])]) trivial (by simp [PubMonoOp])).1
+example := Klev.C10.timesInv_step wL wL_inv wL_timesOn wL_timesInv wL_mono
+  (.reopen [0, 2, 5, 8] (some .v1) true oo) (show oo.opts.params = wL.opts.params by decide) trivial
+-- `TimesInv wL ∧ Monotone (abs wL)` is itself an instance of `times_run` (from the empty log)
+example : TimesInv wL ∧ Spec.Monotone (abs wL) :=
+  Klev.C10.times_run l0 l0_inv rfl (timesInv_open_empty oo l0 open_l0)
+    (by rw [l0_abs]; exact monotone_empty) ops ops_same ops_timesOK
+example : TimesOKRun l0 ops :=
+  Klev.C10.timesOKRun_of_pubMono l0 l0_inv rfl (timesInv_open_empty oo l0 open_l0)
+    (by rw [l0_abs]; exact monotone_empty) 0 l0_carry ops ops_same ops_mono
+-- … and `wL` is a legitimate starting state again
+example := Klev.C10.timesOKRun_of_pubMono wL wL_inv wL_timesOn wL_timesInv wL_mono 50 wL_carry
+  [.delete [8], .publish [(50, [1], [1])], .gc, .publish [(70, [], [])]]
+  ⟨trivial, trivial, trivial, trivial, trivial⟩ (by simp [PubMono, PubMonoOp, hwNext, lastTime])
+example := Klev.C10.times_run wL wL_inv wL_timesOn wL_timesInv wL_mono
+  [.delete [8], .publish [(50, [1], [1])], .gc, .publish [(70, [], [])]]
+  ⟨trivial, trivial, trivial, trivial, trivial⟩
+  (Klev.timesOKRun_of_pubMono wL wL_inv wL_timesOn wL_timesInv wL_mono 50 wL_carry _
+    ⟨trivial, trivial, trivial, trivial, trivial⟩ (by simp [PubMono, PubMonoOp, hwNext, lastTime]))
+example := Klev.C10.getByTime_ok_run oo ops ops_same 20 l0 open_l0 ops_timesOK
+example := Klev.C10.getByTime_ok_mono oo ops ops_same ops_mono 25 l0 open_l0
+example := Klev.C10.lookups_ok_runX oo xs xs_same l0 open_l0 (fun _ => xs_timesOK)
+example := Klev.C10.lookups_ok_monoX oo xs xs_same (fun _ => xs_mono) l0 open_l0
+
+-- evaluated: the tie at 20 is answered from the *previous* segment (offset 1, not 2), the tie at
+-- 30 likewise (offset 4, not 5); before the first, between, after the last
+example : (wL.getByTime 20).2 = .ok ⟨1, 20, [2], [2]⟩ ∧ (wL.getByTime 30).2 = .ok ⟨4, 30, [6], []⟩ ∧
+    (wL.getByTime 0).2 = .ok ⟨0, 10, [1], [1]⟩ ∧ (wL.getByTime 25).2 = .ok ⟨4, 30, [6], []⟩ ∧
+    (wL.getByTime 31).2 = .ok ⟨6, 40, [1], [6]⟩ ∧ (wL.getByTime 45).2 = .ok ⟨8, 50, [2], [8]⟩ ∧
+    (wL.getByTime 51).2 = .err .notFound := by decide
+example : (wX.getByTime 20).2 = (wL.getByTime 20).2 := by decide
+example : Index.time wIdx 25 = .ok 122 ∧ Index.time wIdx 20 = .ok 46 ∧
+    Index.time wIdx 51 = .error .timeAfter := by decide
+example : (wL.segs.map (fun s => s.recs.map (·.time))) = [[10, 20], [20, 30], [30, 40], [50]] := by decide
+
+end NonVacuity
 
 #print axioms Klev.C10.getByTime_ok
 #print axioms Klev.C10.derive_times
